@@ -59,6 +59,8 @@ class UnIfDefPass(AbstractPass):
                 ]
                 _stdout, _stderr, returncode = process_event_notifier.run_process(cmd)
                 if returncode != 0:
+                    # do not leave the scratch file next to the test case
+                    os.unlink(tmp_file.name)
                     return (PassResult.ERROR, state)
 
                 if filecmp.cmp(test_case, tmp_file.name, shallow=False):
